@@ -59,6 +59,11 @@ def run(ctx):
     b2 = cf.mir1("canary_for_each_in_set_order")
     if not eqhash.internal_iteration_sites(b2, mir.cfg(b2), eqhash.sink_params(b2)):
         raise CanarySilent("H-ORDER does not see the internal iteration (for_each with a captured sink) in the canary")
+    import maps
+    os_ = {(fn, nm) for fn, p_, nm, line, ty, hard in maps.order_sites(cf, modules=("canary_reorder",))}
+    res["O-ORDER on canary_reorder"] = sorted(nm for fn, nm in os_)
+    if not {("canary_reorder", "swap_remove"), ("canary_reorder", "insert"), ("canary_reorder", "rev")} <= os_:
+        raise CanarySilent("O-ORDER does not see the reordering calls in the canary (found %s)" % sorted(os_))
     fake = report.Ctx("canary", "quick", "other", cf)
     ok1, why1 = eqhash.combiner_check(fake, "canary_commutative")
     ok2, why2 = eqhash.combiner_check(fake, "canary_non_commutative")
